@@ -37,6 +37,16 @@ CHECKS = {
         note="Trusted: z3, shadows (validated natively per path with real regexes realising the model's booleans). What a regex matches, URL parsing and the title regexes are C / stdlib code outside the claim.",
         ref="§7 C19",
     ),
+    "C11": dict(
+        text="Programs are printed from ASTs (literals, variables with rebinding/aliasing, nested calls in every argument position, all 22 built-ins) whose leaves are symbolic: every digit, every string character (all of Unicode except quote, backslash, ';') and the whitespace in separator slots; the real aw_query.query2.query runs on the symbolic text (SStr shadow) and z3 decides on every path that the result equals the value computed by an independent reference evaluator (own built-in table calling aw_transform / Bucket directly).",
+        note="Trusted: z3, SStr character semantics (CPython's own Unicode tables; each path's model re-run natively). Bounded by the enumerated program shapes (70 shapes, <=3 statements, depth <=3), <=2 symbolic characters per literal, one symbolic whitespace slot at a time.",
+        ref="§7 C11",
+    ),
+    "C17": dict(
+        text="The real query() is executed on program texts in which one (thorough: two) character(s) at every position are replaced by / preceded by a symbolic character ranging over all Unicode code points, optionally after a delete/duplicate/swap edit, and on free strings of symbolic characters inside syntactic contexts; on every feasible path the outcome must be a value or a QueryException (any other exception whose innermost repository frame is in aw_query/ is a violation, identified by its raising site) and the path must finish within 30 s.",
+        note="Trusted: z3, SStr semantics (validated natively per path). Which query error is raised is not asserted. Exceptions raised inside transform/datastore bodies after type resolution are outside the property. Bounded by the 14 seeds, 1-2 symbolic characters, free strings of <=2 (quick) / <=4 (thorough) characters.",
+        ref="§7 C17",
+    ),
 }
 
 NOT_YET = "check not built yet (work in progress; see DESIGN.md §7 for the plan)"
